@@ -151,7 +151,7 @@ func ParseOptions(rawData []byte) (Options, error) {
 			return nil, ErrLength
 		}
 
-		value := rawData[p : p+int(vlen)]
+		value := append([]byte{}, rawData[p:p+int(vlen)]...)
 		p += int(vlen)
 
 		ops[Tag(tag)] = Option{
